@@ -52,6 +52,10 @@ def parse_choose(cur, weighted):
         if not weighted:
             props.append((c, None, True, p0, None))
             return pop, props, c
+        if not cur.done() and cur.peek()[0] != 'uniform':
+            # returned without an accept test: accepted unconditionally (e.g. a shortcut when every candidate carries the maximum weight)
+            props.append((c, 1.0, True, p0, None))
+            return pop, props, c
         cur.next('uniform')
         p1 = cur.pos()
         m = cur.next('cmp')
@@ -279,6 +283,17 @@ def e2_fast_sir(G, tau, gamma, tw, rw, I0, R0, tmin, tmax, log, sim, fails, coun
                     delays[(v, x)] = e[2]
                 else:
                     delays[(v, x)] = float('inf')
+        elif rr <= 0:
+            # a node of recovery weight 0 never recovers: no duration draw, one exponential delay per susceptible neighbour
+            dur[v] = float('inf')
+            counters['zero_recovery_rate_nodes'] = counters.get('zero_recovery_rate_nodes', 0) + 1
+            for x in susn:
+                e = cur.next('expo')
+                counters['rate_params_checked'] = counters.get('rate_params_checked', 0) + 1
+                if not close(e[1], tau):
+                    fails.append(('transmission_rate', {'edge': (v, x), 'used': e[1], 'chain': tau}))
+                    return
+                delays[(v, x)] = e[2]
         else:
             e = cur.next('expo')
             counters['rate_params_checked'] = counters.get('rate_params_checked', 0) + 1
